@@ -854,6 +854,7 @@ theorem pre_shape (st : St) (tid : Nat) (op : ApiOp) :
   case sAppend d bytes => right; exact ⟨_, _, rfl, fun s1 h => by simp [post, h]⟩
   case sReserve d n => right; exact ⟨_, _, rfl, fun s1 h => by simp [post, h]⟩
   case sDel d => left; exact bal_rel _
+  case sSet d bytes => left; simp [shareAssign, rel, bal]
   case vCopy d s =>
     left; split
     · rfl
@@ -864,6 +865,7 @@ theorem pre_shape (st : St) (tid : Nat) (op : ApiOp) :
   case vSetStr d bytes => right; exact ⟨_, _, rfl, fun s1 h => by simp [post, h]⟩
   case vAppStr d bytes => right; exact ⟨_, _, rfl, fun s1 h => by simp [post, h]⟩
   case vPush d x => right; exact ⟨_, _, rfl, fun s1 h => by simp [post, h]⟩
+  case vSetList d x => right; exact ⟨_, _, rfl, fun s1 h => by simp [post, h]⟩
   case vSwap a b => left; split <;> simp [bal]
   case xCopy d s =>
     left; split
